@@ -201,6 +201,12 @@ pub trait BoundNo<C, T> {
     fn first_mut_of<'x>(&self, _: &'x mut C) -> Option<Option<&'x mut T>> {
         None
     }
+    fn implements_extend(&self) -> bool {
+        false
+    }
+    fn extend_from(&self, _: &mut C, _: &mut dyn Iterator<Item = T>) -> bool {
+        false
+    }
     fn implements_from(&self) -> bool {
         false
     }
@@ -227,6 +233,13 @@ impl<C: Extend<T>, T> Bound<C, T> {
     pub fn extend_with(&self, c: &mut C, x: T) -> Result<(), T> {
         c.extend(std::iter::once(x));
         Ok(())
+    }
+    pub fn implements_extend(&self) -> bool {
+        true
+    }
+    pub fn extend_from(&self, c: &mut C, it: &mut dyn Iterator<Item = T>) -> bool {
+        c.extend(it);
+        true
     }
 }
 impl<C, T> Bound<C, T>
